@@ -10,8 +10,10 @@ import json, os, re, shutil, signal, subprocess, sys, time, hashlib
 
 ROOT = os.path.dirname(os.path.dirname(os.path.abspath(__file__)))
 HARNESS = os.path.join(ROOT, "harness")
-BUILD = os.path.join(ROOT, "build")
+BUILD = os.environ.get("VERIF_BUILD") or os.path.join(ROOT, "build")
 BIN = os.path.join(BUILD, "bin")
+# VERIF_REPO: build against another copy of jech/storrent (mutant validation only; default /repo)
+ALT_REPO = os.environ.get("VERIF_REPO", "")
 GO = "go1.26.8"
 NCPU = os.cpu_count() or 4
 
@@ -40,6 +42,15 @@ def build(part, quiet=False):
     os.makedirs(BIN, exist_ok=True)
     out = binname(part)
     cmd = [GO, "test", "-c", "-tags", "verif", "-vet=off", "-o", out]
+    if ALT_REPO:
+        mf = os.path.join(BUILD, "alt.go.mod")
+        with open(os.path.join(HARNESS, "go.mod")) as f:
+            gm = f.read()
+        gm = gm.replace("=> /repo", "=> " + ALT_REPO)
+        with open(mf, "w") as f:
+            f.write(gm)
+        shutil.copy(os.path.join(HARNESS, "go.sum"), os.path.join(BUILD, "alt.go.sum"))
+        cmd.append("-modfile=" + mf)
     if part.get("race"):
         cmd.append("-race")
     cmd.append("./checks/" + part["pkg"])
@@ -55,7 +66,7 @@ def build(part, quiet=False):
 
 
 _crash_re = re.compile(r"^(panic: .*|fatal error: .*|SIGSEGV.*|signal SIGSEGV.*|unexpected fault address.*|runtime: out of memory.*)$", re.M)
-_frame_re = re.compile(r"^(github\.com/jech/storrent[^\s(]*)\(", re.M)
+_frame_re = re.compile(r"^(github\.com/jech/storrent[^\n]*)\(", re.M)
 _anyframe_re = re.compile(r"^([A-Za-z0-9_./\-]+\.[A-Za-z0-9_.()*\[\]·]+)\(", re.M)
 
 
@@ -280,7 +291,8 @@ def check(pid, tier, seed):
     os.makedirs(rundir, exist_ok=True)
     os.makedirs(os.path.join(ROOT, "replays"), exist_ok=True)
     os.makedirs(os.path.join(ROOT, "evidence"), exist_ok=True)
-    ev_path = os.path.join(ROOT, "evidence", pid + ".json")
+    ev_path = os.path.join(ROOT if not ALT_REPO else BUILD, "evidence", pid + ".json")
+    os.makedirs(os.path.dirname(ev_path), exist_ok=True)
     if os.path.exists(ev_path):
         os.remove(ev_path)
 
@@ -322,7 +334,8 @@ def check(pid, tier, seed):
     replay_paths = []
     for v in new:
         h = hashlib.sha1(v["sig"].encode()).hexdigest()[:10]
-        rp = os.path.join(ROOT, "replays", "%s-%d-%s.json" % (pid, seed, h))
+        rp = os.path.join(ROOT if not ALT_REPO else BUILD, "replays", "%s-%d-%s.json" % (pid, seed, h))
+        os.makedirs(os.path.dirname(rp), exist_ok=True)
         with open(rp, "w") as f:
             json.dump({"property": pid, "seed": seed, "tier": tier, "violation": v}, f, indent=1, default=str)
         replay_paths.append(rp)
